@@ -79,6 +79,14 @@ NumPairs == {<<0, 0>>, <<0, 1>>, <<0, 2>>, <<0, 3>>, <<2, 0>>, <<2, 1>>, <<2, 2>
 FromNumbers(p) == CASE p \in {<<0, 0>>, <<0, 1>>, <<0, 2>>} -> "Legacy"
                     [] p \in {<<0, 3>>, <<2, 0>>} -> "V2_0"
                     [] p = <<2, 1>> -> "V2_1" [] p = <<2, 2>> -> "V2_2" [] OTHER -> "invalid"
+\* "a table's files all carry the table's storage version": the version inferred from fragments, each given as the
+\* sequence of the (major, minor) pairs of its data files (Fragment::try_infer_version; check_storage_version and
+\* the manifest decoder rely on it)
+FilePairs(frs) == UNION {{frs[i][j] : j \in 1 .. Len(frs[i])} : i \in 1 .. Len(frs)}
+InferSem(frs) == LET vs == {FromNumbers(<<p[1], p[2]>>) : p \in FilePairs(frs)} IN
+                 IF vs = {} THEN "none"
+                 ELSE IF "invalid" \in vs \/ Cardinality(vs) > 1 THEN "error"
+                 ELSE CHOOSE v \in vs : TRUE
 ToNumbers(v) == LET c == Resolve(v) IN
                 CASE c = "Legacy" -> <<0, 2>> [] c = "V2_0" -> <<2, 0>> [] c = "V2_1" -> <<2, 1>>
                   [] c = "V2_2" -> <<2, 2>> [] OTHER -> <<-1, -1>>
